@@ -124,6 +124,10 @@ UGENS = {
                        nout=1),
     # width first (c02): ordering side effects
     'LocalBuf':   dict(m=('new',), args=('tag', 'c'), eff='effect', wf=True),
+    # created by the library with the first LocalBuf of a definition; its
+    # input is the number of local buffers
+    'MaxLocalBufs': dict(m=('new',), args=(), eff='effect', wf=True,
+                         implicit=True),
     'SetBuf':     dict(m=('new',), eff='effect', wf=True),
     'ClearBuf':   dict(m=('new',), eff='effect', wf=True),
     'FFT':        dict(m=('kr',), eff='effect', wf=True),
@@ -139,7 +143,8 @@ UGENS = {
 
 CONTROL_CLASSES = ('Control', 'TrigControl', 'AudioControl', 'LagControl')
 ARITH_CLASSES = ('UnaryOpUGen', 'BinaryOpUGen', 'MulAdd', 'Sum3', 'Sum4')
-WIDTH_FIRST_CLASSES = tuple(k for k, v in UGENS.items() if v.get('wf'))
+WIDTH_FIRST_CLASSES = tuple(k for k, v in UGENS.items()
+                            if v.get('wf') and not v.get('implicit'))
 
 # (inputs, outputs) of one unit spec by class, from the server documentation of
 # each unit; None = variable (checked by a formula in C02)
@@ -261,6 +266,7 @@ class SourceEval:
         self.rho = rho
         self.analysis = analysis     # K2A/A2K/DC are leaves of their own rate
         self.perturb = perturb       # nodes whose value is re-drawn (liveness)
+        self.max_local_bufs = None
         self.vals = []
         self.units = []
         self.ops = []
@@ -392,6 +398,19 @@ class SourceEval:
             else:
                 ins = [self.operand(o) for o in nd['args']]
                 nout = ent.get('nout', 1)
+            if cls == 'LocalBuf':
+                # LocalBuf.new(frames, channels): inputs (channels, frames,
+                # the definition's MaxLocalBufs unit)
+                if self.max_local_bufs is None:
+                    n = sum(1 for x in self.p['nodes']
+                            if x.get('cls') == 'LocalBuf')
+                    self.max_local_bufs = self._unit(
+                        i, 'MaxLocalBufs', 0, 0, 1, [r.const(n)])
+                    self.unit_of_node.pop(i, None)
+                ins = [ins[1], ins[0], r.out(self.max_local_bufs['sig'], 0)]
+            elif cls == 'SetBuf':
+                # SetBuf.new(buf, values, offset): (buf, offset, n, *values)
+                ins = ins[:2] + [r.const(len(ins) - 2)] + ins[2:]
             if ent['eff'] == 'conv':
                 if self.analysis:
                     if cls == 'A2K':
@@ -854,7 +873,7 @@ class Gen:
         if cls is None:
             cls = rng.choice([c for c, e in UGENS.items()
                               if 'sink' not in e and not e.get('wf')
-                              and e['eff'] != 'conv'])
+                              and e['eff'] != 'conv'])     # wf: p_width_first
         ent = UGENS[cls]
         m = m or rng.choice(ent['m'])
         r = RATE_NUM[m]
@@ -1175,6 +1194,38 @@ class Gen:
                           'chans': [ch], 'bare': True})
         return res
 
+    # -- width-first units: ordering side effects --------------------------------
+    def p_width_first(self):
+        """RandSeed / RandID / LocalBuf (+ SetBuf | ClearBuf) between ordinary
+        arithmetic: opaque side-effecting units; everything created after
+        them must be placed after them"""
+        rng = self.rng
+        which = rng.choice(['seed', 'id', 'buf', 'buf'])
+        self.features.add('width-first-unit')
+        t = self.tag()
+        if which == 'seed':
+            m = rng.choice(['ir', 'kr'])
+            trig = ['c', 1] if m == 'ir' or rng.random() < 0.5 else \
+                self.pick(maxrate=1, pconst=0.2)
+            return self.add({'k': 'ugen', 'cls': 'RandSeed', 'm': m,
+                             'args': [trig, ['c', t]], 'tag': t})
+        if which == 'id':
+            return self.add({'k': 'ugen', 'cls': 'RandID', 'm': 'ir',
+                             'args': [['c', t]], 'tag': t})
+        buf = self.add({'k': 'ugen', 'cls': 'LocalBuf', 'm': 'new',
+                        'args': [['c', t], ['c', rng.choice([1, 2])]],
+                        'tag': t})
+        x = rng.random()
+        if x < 0.45:
+            t2 = self.tag()
+            vals = [['c', rng.choice(SMALL_CONSTS)]
+                    for _ in range(rng.randint(1, 4))]
+            self.add({'k': 'ugen', 'cls': 'SetBuf', 'm': 'new',
+                      'args': [buf, ['c', t2]] + vals, 'tag': t2})
+        elif x < 0.8:
+            self.add({'k': 'ugen', 'cls': 'ClearBuf', 'm': 'new', 'args': [buf]})
+        return buf
+
     # -- sinks -----------------------------------------------------------------
     def audio_node(self):
         o = self.pick_node(stable=2, maxdepth=self.max_depth)
@@ -1253,6 +1304,7 @@ C01_PRODUCTIONS = [
     ('p_add_chain', 4), ('p_muladd', 3), ('p_negs', 3), ('p_self', 3),
     ('p_opaque_un', 2), ('p_neg', 1), ('p_opaque_bin', 2), ('p_madd', 2),
     ('p_sumn', 1.5), ('p_lsum', 2), ('p_sink', 1), ('p_mixed_mc', 2.5),
+    ('p_width_first', 1.2),
 ]
 
 
